@@ -198,7 +198,11 @@ def interpret_tf(tf: bytes, teletext: bool, cct: bytes):
            "wild": False, "n_newline_codes": 0, "diacritic_space": False}
   i, n = 0, len(tf)
 
+  after_dspace = [False]      # the previous cell is diacritic + space: whether that space still separates words is not judged
+
   def gap(real, ctrl):
+    if after_dspace[0]:
+      real, ctrl = 0, real + ctrl
     cur = lines[-1]
     if cur and cur[-1][0] == "g":
       cur[-1] = ("g", cur[-1][1] + real, cur[-1][2] + ctrl)
@@ -208,6 +212,7 @@ def interpret_tf(tf: bytes, teletext: bool, cct: bytes):
   while i < n:
     b = tf[i]
     if b == 0x8A:
+      after_dspace[0] = False
       flags["newline"] = True
       flags["n_newline_codes"] += 1
       lines.append([])
@@ -231,15 +236,19 @@ def interpret_tf(tf: bytes, teletext: bool, cct: bytes):
         if nxt is not None and is_char_code(nxt):
           # diacritic + space (free-standing accent) and pairs outside the repertoire: not judged
           acc = iso6937_pair(b, nxt) if nxt != 0x20 else None
+          i += 1
+          after_dspace[0] = False
           if nxt == 0x20:
             flags["diacritic_space"] = True
-          i += 1
+            after_dspace[0] = True
         else:
           acc = None                  # diacritic before a control code / end of field: not judged
+          after_dspace[0] = False
         if acc is None:
           flags["wild"] = True
         lines[-1].append(("c", acc, st.get()))
       else:
+        after_dspace[0] = False
         acc = single_byte_char(cct, b)
         if acc is None:
           flags["wild"] = True
